@@ -223,7 +223,8 @@ Theorem C12_load_parameters_self_consistent :
 Proof. exact load_parameters_spec. Qed.
 Print Assumptions C12_load_parameters_self_consistent.
 
-(** After ANY sequence of load_parameters / fit events ending with [e] (run by any runner that leaves the non-derived values
+(** After ANY sequence of load_parameters / fit / observer events whose last load_parameters-or-fit is [e], followed by any
+    observers [rs] (to_dict, save: reads that fill the cache) (run by any runner that leaves the non-derived values
     of the scripts of Io/History.v): population variables = prior modes read in the final state, parameters = the LAST ones,
     every read = from-scratch value of a fresh model under them. *)
 Theorem C12_history_self_consistent :
@@ -244,9 +245,9 @@ Theorem C12_history_self_consistent :
     forall rn : St -> event V St -> option St,
     (forall s e, event_ok V St indep pops e ->
        exists x y, rn s e = Some x /\ run_event V St get set clone stat isset pops s e = Some y /\ forall m, vals x m = vals y m) ->
-    forall (h : list (event V St)) (e : event V St) (s : St),
-      Forall (event_ok V St indep pops) (h ++ [e]) ->
-      exists s1 s', run_hist V St rn h s = Some s1 /\ run_hist V St rn (h ++ [e]) s = Some s' /\
+    forall (h : list (event V St)) (e : event V St) (rs : list (list string)) (s : St),
+      Forall (event_ok V St indep pops) (h ++ [e]) -> is_read e = false ->
+      exists s1 s', run_hist V St rn h s = Some s1 /\ run_hist V St rn (h ++ e :: reads V St rs) s = Some s' /\
         at_mode V St get stat pops s' /\
         (forall q, indep q = true -> ~ In q pops -> get s' q = after V St vals e s1 q) /\
         (forall n, get s' n = eval (fresh_model V stat pops (after V St vals e s1)) n).
@@ -272,10 +273,12 @@ Theorem C12_history_independent :
     forall rn : St -> event V St -> option St,
     (forall s e, event_ok V St indep pops e ->
        exists x y, rn s e = Some x /\ run_event V St get set clone stat isset pops s e = Some y /\ forall m, vals x m = vals y m) ->
-    forall (h1 : list (event V St)) (e1 : event V St) (s1 : St) (h2 : list (event V St)) (e2 : event V St) (s2 : St),
-      Forall (event_ok V St indep pops) (h1 ++ [e1]) -> Forall (event_ok V St indep pops) (h2 ++ [e2]) ->
+    forall (h1 : list (event V St)) (e1 : event V St) (r1 : list (list string)) (s1 : St)
+           (h2 : list (event V St)) (e2 : event V St) (r2 : list (list string)) (s2 : St),
+      Forall (event_ok V St indep pops) (h1 ++ [e1]) -> is_read e1 = false ->
+      Forall (event_ok V St indep pops) (h2 ++ [e2]) -> is_read e2 = false ->
       exists m1 m2 f1 f2, run_hist V St rn h1 s1 = Some m1 /\ run_hist V St rn h2 s2 = Some m2 /\
-        run_hist V St rn (h1 ++ [e1]) s1 = Some f1 /\ run_hist V St rn (h2 ++ [e2]) s2 = Some f2 /\
+        run_hist V St rn (h1 ++ e1 :: reads V St r1) s1 = Some f1 /\ run_hist V St rn (h2 ++ e2 :: reads V St r2) s2 = Some f2 /\
         ((forall q, ~ In q pops -> after V St vals e1 m1 q = after V St vals e2 m2 q) -> forall n, get f1 n = get f2 n).
 Proof. exact history_independent. Qed.
 Print Assumptions C12_history_independent.
@@ -291,12 +294,12 @@ Theorem C12_history_self_consistent_reachable :
     (forall k pp f f', (forall q, In q (prior_params pp) -> f q = f' q) -> stat k pp f = stat k pp f') ->
     (forall pp q, In pp pops -> In q (prior_params pp) -> s_indep V g names q = true /\ ~ In q pops) ->
     forall (S : StateModel.store V) (k : nat) (s : state V)
-           (h : list (event (option V) (gstate V g))) (e : event (option V) (gstate V g)),
+           (h : list (event (option V) (gstate V g))) (e : event (option V) (gstate V g)) (rs : list (list string)),
       Reach V g M IX sm S -> nth_error S k = Some s ->
-      Forall (event_ok (option V) (gstate V g) (s_indep V g names) pops) (h ++ [e]) ->
+      Forall (event_ok (option V) (gstate V g) (s_indep V g names) pops) (h ++ [e]) -> is_read e = false ->
       exists gs : gstate V g, proj1_sig gs = s /\
       exists s1 s', run_history_cached V g W names stat prior_params pops h gs = Some s1 /\
-        run_history_cached V g W names stat prior_params pops (h ++ [e]) gs = Some s' /\
+        run_history_cached V g W names stat prior_params pops (h ++ e :: reads (option V) (gstate V g) rs) gs = Some s' /\
         at_mode (option V) (gstate V g) (s_get V g names) stat pops s' /\
         (forall q, s_indep V g names q = true -> ~ In q pops ->
            s_get V g names s' q = after (option V) (gstate V g) (s_vals V g names) e s1 q) /\
@@ -313,9 +316,10 @@ Theorem C12_history_last_load_params_state :
     (forall pp, In pp pops -> s_indep V g names pp = true) ->
     (forall k pp f f', (forall q, In q (prior_params pp) -> f q = f' q) -> stat k pp f = stat k pp f') ->
     (forall pp q, In pp pops -> In q (prior_params pp) -> s_indep V g names q = true /\ ~ In q pops) ->
-    forall (h : list (event (option V) (gstate V g))) (a : list (string * option V)) (cmp : list string) (s : gstate V g),
+    forall (h : list (event (option V) (gstate V g))) (a : list (string * option V)) (cmp : list string) (rs : list (list string))
+           (s : gstate V g),
       Forall (event_ok (option V) (gstate V g) (s_indep V g names) pops) (h ++ [EvLoad a cmp]) -> NoDup (map fst a) ->
-      exists s', run_history_cached V g W names stat prior_params pops (h ++ [EvLoad a cmp]) s = Some s' /\
+      exists s', run_history_cached V g W names stat prior_params pops (h ++ EvLoad a cmp :: reads (option V) (gstate V g) rs) s = Some s' /\
         at_mode (option V) (gstate V g) (s_get V g names) stat pops s' /\
         forall p v, In (p, v) a -> s_get V g names s' p = v.
 Proof. exact history_last_load_params_cached. Qed.
@@ -332,12 +336,12 @@ Theorem C12_history_vs_fresh_reachable :
     (forall k pp f f', (forall q, In q (prior_params pp) -> f q = f' q) -> stat k pp f = stat k pp f') ->
     (forall pp q, In pp pops -> In q (prior_params pp) -> s_indep V g names q = true /\ ~ In q pops) ->
     forall (S S0 : StateModel.store V) (k k0 : nat) (s s0 : state V)
-           (h : list (event (option V) (gstate V g))) (a : list (string * option V)) (cmp : list string),
+           (h : list (event (option V) (gstate V g))) (a : list (string * option V)) (cmp : list string) (rs : list (list string)),
       Reach V g M IX sm S -> nth_error S k = Some s -> Reach V g M IX sm S0 -> nth_error S0 k0 = Some s0 ->
       Forall (event_ok (option V) (gstate V g) (s_indep V g names) pops) (h ++ [EvLoad a cmp]) ->
       exists gs gs0 : gstate V g, proj1_sig gs = s /\ proj1_sig gs0 = s0 /\
       exists s1 s' f, run_history_cached V g W names stat prior_params pops h gs = Some s1 /\
-        run_history_cached V g W names stat prior_params pops (h ++ [EvLoad a cmp]) gs = Some s' /\
+        run_history_cached V g W names stat prior_params pops (h ++ EvLoad a cmp :: reads (option V) (gstate V g) rs) gs = Some s' /\
         run_history_cached V g W names stat prior_params pops [EvLoad a cmp] gs0 = Some f /\
         ((forall q, ~ In q pops -> ~ In q (map fst a) -> s_vals V g names s1 q = s_vals V g names gs0 q) ->
          forall n, s_get V g names s' n = s_get V g names f n).
@@ -356,12 +360,12 @@ Proof. exact ToyHistory.guarded_reset_refuted. Qed.
 Print Assumptions C12_guarded_reset_refuted.
 
 (** Non-vacuity on the 7-node graph, State object 0 of the store left by the 14-operation past, scripts with caching reads:
-    load_parameters(9) -> fit (iterations leave 5 / 3) -> load_parameters(11); the events satisfy the hypothesis. *)
+    load_parameters(9) -> observer -> fit (iterations leave 5 / 3) -> load_parameters(11) -> observer; the events satisfy the hypothesis. *)
 Theorem C12_history_example :
   Forall (event_ok (option xval) DemoHistory.gst (s_indep xval Demo.g Demo.names) Demo.pops) DemoHistory.h3 /\
   DemoHistory.view (DemoHistory.run (firstn 1 DemoHistory.h3) Demo.gs0)
     = Some [DemoHistory.num 9; DemoHistory.num 9; DemoHistory.num 18; DemoHistory.num 126] /\
-  DemoHistory.view (DemoHistory.run (firstn 2 DemoHistory.h3) Demo.gs0)
+  DemoHistory.view (DemoHistory.run (firstn 3 DemoHistory.h3) Demo.gs0)
     = Some [DemoHistory.num 5; DemoHistory.num 5; DemoHistory.num 10; DemoHistory.num 118] /\
   DemoHistory.view (DemoHistory.run DemoHistory.h3 Demo.gs0)
     = Some [DemoHistory.num 11; DemoHistory.num 11; DemoHistory.num 22; DemoHistory.num 130].
